@@ -41,19 +41,19 @@ fn emit(k: &str, lvl: u64, tgt: &str) {
 struct RFilter {
     thr: u64,
     tgts: Vec<String>,
-    span: bool, // (EnvFilter values only) additionally "[w]=trace": everything inside a span named `w`
+    span: u64, // (EnvFilter values only) additionally "[w]=<level>": the level enabled inside a span named `w` (0 = no such directive)
     none: bool, // (optglobal values only) the reloadable Option is None: the layer is absent
 }
 impl RFilter {
     fn of(v: &Value) -> RFilter {
         RFilter { thr: v["thr"].as_u64().unwrap(), tgts: v["tgts"].as_array().unwrap().iter().map(|x| x.as_str().unwrap().to_string()).collect(),
-                  span: v["span"].as_bool().unwrap_or(false), none: v["none"].as_bool().unwrap_or(false) }
+                  span: v["spanl"].as_u64().unwrap_or(if v["span"].as_bool().unwrap_or(false) { 5 } else { 0 }), none: v["none"].as_bool().unwrap_or(false) }
     }
     fn env(&self) -> tracing_subscriber::EnvFilter {
         let lv = ["off", "error", "warn", "info", "debug", "trace"][self.thr as usize];
         let mut dirs: Vec<String> = self.tgts.iter().map(|t| format!("{}={}", t, lv)).collect();
-        if self.span {
-            dirs.push("[w]=trace".to_string());
+        if self.span > 0 {
+            dirs.push(format!("[w]={}", ["off", "error", "warn", "info", "debug", "trace"][self.span as usize]));
         }
         tracing_subscriber::EnvFilter::new(dirs.join(","))
     }
@@ -101,6 +101,7 @@ fn child() {
     let filters: HashMap<u64, FilterRec> = sc["collectors"].as_object().map(|m| m.iter().map(|(k, v)| (k.parse().unwrap(), FilterRec::from_json(v))).collect()).unwrap_or_default();
     // C12: one shared reloadable stack, created before the race
     let mut reload_handle = None;
+    let mut modify_handle: Option<Arc<Mutex<Box<dyn Fn(&RFilter) -> bool + Send>>>> = None;
     let mut shared: Option<Dispatch> = None;
     if let Some(r) = sc.get("reload") {
         let v0 = RFilter::of(&r["values"][0]);
@@ -110,8 +111,17 @@ fn child() {
             std::mem::forget(Dispatch::new(c));
             let (f, h) = tracing_subscriber::reload::Subscriber::new(v0.env());
             shared = Some(Dispatch::new(tracing_subscriber::registry().with(f).with(RecLayer { log: log.clone() })));
+            let h2 = h.clone();
             reload_handle = Some(Arc::new(Mutex::new(Box::new(move |v: &RFilter| h.reload(v.env()).is_ok()) as Box<dyn Fn(&RFilter) -> bool + Send>)));
+            // the in-place edit: the installed filter is taken out, gets one more directive and is put back (Handle::modify)
+            modify_handle = Some(Arc::new(Mutex::new(Box::new(move |v: &RFilter| {
+                let d: tracing_subscriber::filter::Directive = format!("[w]={}", ["off", "error", "warn", "info", "debug", "trace"][v.span as usize]).parse().unwrap();
+                h2.modify(|f| *f = std::mem::take(f).add_directive(d)).is_ok()
+            }) as Box<dyn Fn(&RFilter) -> bool + Send>)));
         } else if r["kind"] == "optglobal" {
+            // a second, idle collector with a restrictive hint is alive as well
+            let (c, _) = RecCollector::new(9, FilterRec { thr: 1, tgts: vec!["a".into(), "b".into()], kind: "static".into(), hint: Some(1) }, new_log());
+            std::mem::forget(Dispatch::new(c));
             // a reloadable Option<Targets> global layer ABOVE the recording layer: None means the layer is absent
             let (f, h) = tracing_subscriber::reload::Subscriber::new(v0.opt_targets());
             shared = Some(Dispatch::new(tracing_subscriber::registry().with(RecLayer { log: log.clone() }).with(f)));
@@ -134,8 +144,8 @@ fn child() {
     std::thread::scope(|s| {
         for (j, script) in scripts.iter().enumerate() {
             let t = j as u64 + 1;
-            let (log, out, filters, survivors, panicked, shared, reload_handle, sc) =
-                (log.clone(), out.clone(), filters.clone(), survivors.clone(), panicked.clone(), shared.clone(), reload_handle.clone(), &sc);
+            let (log, out, filters, survivors, panicked, shared, reload_handle, modify_handle, sc) =
+                (log.clone(), out.clone(), filters.clone(), survivors.clone(), panicked.clone(), shared.clone(), reload_handle.clone(), modify_handle.clone(), &sc);
             s.spawn(move || {
                 VT.with(|v| v.set(t));
                 sched::enter(t);
@@ -178,8 +188,13 @@ fn child() {
                             }
                             "reload" => {
                                 let v = RFilter::of(&sc["reload"]["values"][op["v"].as_u64().unwrap() as usize]);
-                                let h = reload_handle.as_ref().unwrap().lock().unwrap();
-                                o["ok"] = json!(h(&v));
+                                if op["how"] == "modify_add" {
+                                    let h = modify_handle.as_ref().unwrap().lock().unwrap();
+                                    o["ok"] = json!(h(&v));
+                                } else {
+                                    let h = reload_handle.as_ref().unwrap().lock().unwrap();
+                                    o["ok"] = json!(h(&v));
+                                }
                             }
                             "hit" => {
                                 let (lvl, tgt, k) = (op["c"]["lvl"].as_u64().unwrap(), op["c"]["tgt"].as_str().unwrap(), op["k"].as_str().unwrap_or("event"));
